@@ -504,7 +504,8 @@ def det_batches(tier):
                B("det-low-%s-%s" % (be, var), "low", be, var, n, spec="swarm:8", specpool=2, nkeys=1, **({"xBmax": 10} if (var == "debug" or be.startswith("nayuki")) else {})),
                B("det-rand-%s-%s" % (be, var), "rand", be, var, n, spec="swarm:12"),
                B("det-enc-%s-%s" % (be, var), "enc", be, var, n, spec="swarm:12", specpool=3, nkeys=1),
-               B("det-life-%s-%s" % (be, var), "life", be, var, n, maxn=9, nops=10, **({"Bmax": 10} if (var == "debug" or be.startswith("nayuki")) else {}))]
+               B("det-life-%s-%s" % (be, var), "life", be, var, n, maxn=9, nops=10, **({"Bmax": 10} if (var == "debug" or be.startswith("nayuki")) else {})),
+               B("det-conc-cold-%s-%s" % (be, var), "conc", be, var, n // 2, spec="swarm:12", specpool=3, nkeys=1, maxw=6, cold=1, fork=1)]
     return bs
 
 
